@@ -287,6 +287,21 @@ def check_cases(ctx, cases):
                 m = t.offset_minutes()
             except Exception as e:
                 m = "exc:" + type(e).__name__
+            # the dictionary forms: recorded bytes alone, and next to the legacy numeric members (as
+            # transitional producers wrote them) — the recorded bytes win, verbatim
+            tsd = {"seconds": 1, "microseconds": 0}
+            forms = [{"timestamp": dict(tsd), "offset_bytes": b}]
+            if isinstance(m, int):
+                forms.append({"timestamp": dict(tsd), "offset_bytes": b, "offset": m, "negative_utc": b.startswith(b"-") and m == 0})
+                forms.append({"offset": m, "negative_utc": False, "offset_bytes": b, "timestamp": dict(tsd)})
+            for fd in forms:
+                try:
+                    t2 = TimestampWithTimezone.from_dict(dict(fd))
+                except Exception as e:
+                    ctx.fail(dict(case, form=sorted(fd)), f"from_dict rejects a date dictionary that records offset bytes: {type(e).__name__}", "dict-with-offset-bytes-rejected")
+                    continue
+                if t2.offset_bytes != b or t2 != t:
+                    ctx.fail(dict(case, form=sorted(fd)), "recorded offset bytes are not kept verbatim when decoding a dictionary", "offset-bytes-changed:from_dict", {"got": t2.offset_bytes.decode("latin1")})
             reqs.append({"op": "offset_parse", "bytes": case["bytes"]})
             post.append(("offbytes", case, m))
         else:
